@@ -377,6 +377,45 @@ def run(chk):
             chk.fail("chain-not-exact", f"two-site chain of dimensions {dims}{' with a density-matrix query between two compute calls' if peek else ''}: "
                      f"deviation {worst:.2e} from the exact propagator / partial traces / norm one", info)
 
+    # ---- (c3) a chain object that is extended after it has been used: the second computation sees the terms added since ----
+    for it in range(2 if thorough else 1):
+        order, dt, N = rng.choice([1, 2]), 0.1, 2
+        h0, h1 = herm(2), herm(2)
+        A_, B_ = herm(2), herm(2)
+        extra_site, extra_l, extra_r = herm(2), herm(2), herm(2)
+        r0s = [oqupy.operators.spin_dm("x+"), oqupy.operators.spin_dm("y-")]
+        info = {"kind": "chain-extended-after-use", "order": order}
+        chk.search_cases += 1
+        chk.count("chain_extended_after_use")
+        chk.case(info, ("chain-extended", order, it))
+
+        def build(full):
+            c_ = oqupy.SystemChain([2, 2])
+            c_.add_site_hamiltonian(0, h0)
+            c_.add_site_hamiltonian(1, h1)
+            c_.add_nn_hamiltonian(0, A_, B_)
+            if full:
+                c_.add_site_hamiltonian(1, extra_site)
+                c_.add_nn_hamiltonian(0, extra_l, extra_r)
+            return c_
+
+        def tebd_states(c_):
+            p_ = oqupy.PtTebd(oqupy.AugmentedMPS(r0s), c_, [None, None], oqupy.PtTebdParameters(dt=dt, order=order, epsrel=eps), dynamics_sites=[(0, 1)])
+            return np.array(quiet(p_.compute, N, progress_type="silent")["dynamics"][(0, 1)].states)
+        try:
+            shared = build(False)
+            first = tebd_states(shared)
+            shared.add_site_hamiltonian(1, extra_site)
+            shared.add_nn_hamiltonian(0, extra_l, extra_r)
+            second = tebd_states(shared)
+            fresh1, fresh2 = tebd_states(build(False)), tebd_states(build(True))
+        except Exception as ex:
+            chk.fail("chain-raises", f"PtTebd on a re-used chain raises {ex!r}", info)
+            continue
+        if np.abs(first - fresh1).max() > 1e3 * eps or np.abs(second - fresh2).max() > 1e3 * eps:
+            chk.fail("chain-stale-after-extension", f"a SystemChain used in one PT-TEBD computation and then extended by further terms: the next computation differs "
+                     f"from the one on a freshly built equal chain by {np.abs(second - fresh2).max():.2e}", info)
+
     # ---- (d) execution modes, each in a fresh interpreter --------------------------------------
     base, err = run_mode("none")
     if base is None:
